@@ -19,9 +19,10 @@ From Murex Require Import Base.Outcome Base.Bytes.
 (* Programs                                                            *)
 
 (* What a command does when it is run: its exit number, the bytes it writes
-   to its stdout, and whether it first copies its stdin to its stdout
-   (c_fwd; only meaningful for a pipeline stage that is not the first). *)
-Record cmd := { c_exit : Z; c_tok : bytes; c_fwd : bool }.
+   to its stdout, whether it first copies its stdin to its stdout (c_fwd; only
+   meaningful for a pipeline stage that is not the first), and the bytes it
+   writes to stderr (c_err; only tryerr / trypipeerr look at them). *)
+Record cmd := { c_exit : Z; c_tok : bytes; c_fwd : bool; c_err : bytes }.
 
 Inductive joiner := JSemi | JAnd | JOr.      (* `;` or newline, `&&`, `||` *)
 
@@ -122,6 +123,13 @@ Definition run_normal_old := run_normal_gen false.
 
 Definition falses {A} (l : list A) : list bool := map (fun _ => false) l.
 
+(* what a process writes to its stdout (declared here, used by stdout_of below
+   and by the tryerr loops) *)
+Definition produced (p : proc) (ran : bool) (carry : bytes) : bytes :=
+  if ran
+  then (if c_fwd (p_cmd p) then carry else []) ++ c_tok (p_cmd p)
+  else [].
+
 Fixpoint try_loop (exitNum : Z) (skipping : bool) (ps : list proc) : list bool * Z :=
   match ps with
   | [] => ([], exitNum)
@@ -212,6 +220,58 @@ Definition run_trypipe_old (ps : list proc) : list bool * Z :=
   match ps with [] => ([], 1%Z) | _ => trypipe_loop_old 0 ps end.
 
 (* ------------------------------------------------------------------ *)
+(* tryerr / trypipeerr: runModeTry / runModeTryPipe with tryErr = true.  After a
+   process has been waited for, checkTryErr (lang/interpreter.go) runs:
+       outSize, _ := p.Stdout.Stats();  errSize, _ := p.Stderr.Stats()
+       if *exitNum < 1 && errSize > outSize { *exitNum = 1 }
+   Stats() is the number of bytes written to the *stream object* so far.
+   p.Stderr is the block's stderr, shared by every process of the block (and of
+   the blocks nested in it), p.Stdout is the block's stdout (shared) unless the
+   next process is a method, in which case it is the fresh pipe to that method.
+   So the test compares CUMULATIVE totals.  strict_loop is one loop for the four
+   strict schedulers: chk = tryErr, every = trypipe (every process is waited
+   for and checked); outT / errT are the totals, carry is the content of the
+   pipe into the next method (as in stdout_of). With chk = false it is
+   try_loop / trypipe_loop. *)
+Definition blen (b : bytes) : N := N.of_nat (length b).
+
+Definition check_err (chk : bool) (e : Z) (outSize errSize : N) : Z :=
+  if chk && Z.ltb e 1 && N.ltb outSize errSize then 1%Z else e.
+
+Definition perr (p : proc) : N := blen (c_err (p_cmd p)).
+
+Fixpoint strict_loop (chk every : bool) (outT errT : N) (carry : bytes) (exitNum : Z)
+         (skipping : bool) (ps : list proc) : list bool * Z :=
+  match ps with
+  | [] => ([], exitNum)
+  | p :: rest =>
+      if skipping && (p_or p || p_method p)
+      then let '(r, e) := strict_loop chk every outT errT [] exitNum true rest in (false :: r, e)
+      else
+        let out := produced p true carry in
+        let errT' := (errT + perr p)%N in
+        match rest with
+        | [] => ([true], check_err chk (pexit p) (outT + blen out)%N errT')
+        | q :: _ =>
+            if p_method q && negb every
+            then let '(r, e) := strict_loop chk every outT errT' out exitNum false rest in (true :: r, e)
+            else
+              let osz := if p_method q then blen out else (outT + blen out)%N in
+              let outT' := if p_method q then outT else (outT + blen out)%N in
+              let carry' := if p_method q then out else [] in
+              let e := check_err chk (pexit p) osz errT' in
+              if Z.ltb e 1 && p_or q
+              then let '(r, e') := strict_loop chk every outT' errT' carry' e true rest in (true :: r, e')
+              else if Z.ltb 0 e && negb (p_or q)
+              then (true :: falses rest, e)
+              else let '(r, e') := strict_loop chk every outT' errT' carry' e false rest in (true :: r, e')
+        end
+  end.
+
+Definition run_strict (chk every : bool) (ps : list proc) : list bool * Z :=
+  match ps with [] => ([], 1%Z) | _ => strict_loop chk every 0 0 [] 0 false ps end.
+
+(* ------------------------------------------------------------------ *)
 (* Run-mode selection: lang/runmode (enum order) and the switch in
    Fork.Execute.  try {} sets BlockTry, `runmode try function` FunctionTry,
    `runmode try module` ModuleTry, ... *)
@@ -235,9 +295,7 @@ Definition sched_of (m : runmode) : sched :=
   end.
 
 (* Fork.Execute after compile: an empty block returns 0 before any scheduler
-   is entered.  The *err modes additionally look at stderr (checkTryErr); they
-   are modelled only for commands that write nothing to stderr, where they
-   coincide with try / trypipe. *)
+   is entered. *)
 Definition execute (m : runmode) (ps : list proc) : list bool * Z :=
   match ps with
   | [] => ([], 0%Z)
@@ -245,8 +303,10 @@ Definition execute (m : runmode) (ps : list proc) : list bool * Z :=
       match sched_of m with
       | SNormal => run_normal ps
       | SUnsafe => (fst (run_normal ps), 0%Z)
-      | STry | STryErr => run_try ps
-      | STryPipe | STryPipeErr => run_trypipe ps
+      | STry => run_try ps
+      | STryPipe => run_trypipe ps
+      | STryErr => run_strict true false ps
+      | STryPipeErr => run_strict true true ps
       end
   end.
 
@@ -266,10 +326,6 @@ Definition execute_old (m : runmode) (ps : list proc) : list bool * Z :=
 (* What reaches the block's stdout: a process writes to the stdin of the next
    process when that one is a method, otherwise to the block's stdout
    (compile(): PipeOut).  A process that did not run writes nothing. *)
-Definition produced (p : proc) (ran : bool) (carry : bytes) : bytes :=
-  if ran
-  then (if c_fwd (p_cmd p) then carry else []) ++ c_tok (p_cmd p)
-  else [].
 
 Fixpoint stdout_of (carry : bytes) (ps : list proc) (ran : list bool) : bytes :=
   match ps, ran with
@@ -375,13 +431,88 @@ Definition spec_strict (tp : bool) (prog : program) : obs :=
       {| o_out := o; o_exit := e |}
   end.
 
+Definition cmds_of (prog : program) : list cmd :=
+  flat_map (fun jp => fst (snd jp) :: snd (snd jp)) prog.
+
+Definition exits_nonneg (prog : program) : bool :=
+  forallb (fun c => Z.leb 0 (c_exit c)) (cmds_of prog).
+
+(* tryerr / trypipeerr.  One reference interpreter with two readings of "wrote
+   more to stderr than to stdout":
+     cum = false : the documented rule (docs/commands/tryerr.md: "any process that
+                   returns more output via stderr than it does via stdout"): the
+                   checked process' own stderr bytes against its own stdout bytes;
+     cum = true  : what checkTryErr computes: bytes written so far to the block's
+                   stderr against bytes written so far to the stream that is the
+                   process' stdout (the block's stdout for the last stage of a
+                   pipeline, the pipe for an earlier stage).
+   chk = false gives spec_strict again (stderr is ignored). *)
+Inductive plr := RDone (out : bytes) (e : Z) (outT errT : N) | RAbort (e : Z).
+
+Definition verdict (cum chk : bool) (e : Z) (own_out own_err cum_out cum_err : N) : Z :=
+  if cum then check_err chk e cum_out cum_err else check_err chk e own_out own_err.
+
+Fixpoint stages_ref (cum chk every : bool) (outT errT : N) (data : bytes) (c : cmd) (cs : list cmd) : plr :=
+  let data' := stage_out data c in
+  let errT' := (errT + blen (c_err c))%N in
+  match cs with
+  | [] =>
+      let outT' := (outT + blen data')%N in
+      RDone data' (verdict cum chk (c_exit c) (blen data') (blen (c_err c)) outT' errT') outT' errT'
+  | c' :: cs' =>
+      if every
+      then let e := verdict cum chk (c_exit c) (blen data') (blen (c_err c)) (blen data') errT' in
+           if negb (Z.eqb e 0) then RAbort e else stages_ref cum chk every outT errT' data' c' cs'
+      else stages_ref cum chk every outT errT' data' c' cs'
+  end.
+
+Fixpoint spec_ref_go (cum chk every : bool) (prev_failed : bool) (prev : Z) (outT errT : N)
+         (prog : program) : bytes * Z :=
+  match prog with
+  | [] => ([], prev)
+  | (j, pl) :: rest =>
+      let run_it :=
+        match stages_ref cum chk every outT errT [] (fst pl) (snd pl) with
+        | RAbort e => ([], e)
+        | RDone o e outT' errT' =>
+            let '(o', e') := spec_ref_go cum chk every (negb (Z.eqb e 0)) e outT' errT' rest in (o ++ o', e')
+        end in
+      match j with
+      | JOr => if prev_failed then run_it else spec_ref_go cum chk every false prev outT errT rest
+      | _ => if prev_failed then ([], prev) else run_it
+      end
+  end.
+
+Definition spec_ref (cum chk every : bool) (prog : program) : obs :=
+  match prog with
+  | [] => {| o_out := []; o_exit := 0 |}
+  | (_, pl) :: rest =>
+      let '(o, e) := spec_ref_go cum chk every false 0 0 0 ((JSemi, pl) :: rest) in
+      {| o_out := o; o_exit := e |}
+  end.
+
+(* the property's reference for every run mode; for the *err modes it is the
+   documented per-process rule *)
 Definition spec_of (m : runmode) (prog : program) : obs :=
   match sched_of m with
   | SNormal => spec_normal prog
   | SUnsafe => {| o_out := o_out (spec_normal prog); o_exit := 0 |}
-  | STry | STryErr => spec_strict false prog
-  | STryPipe | STryPipeErr => spec_strict true prog
+  | STry => spec_strict false prog
+  | STryPipe => spec_strict true prog
+  | STryErr => spec_ref false true false prog
+  | STryPipeErr => spec_ref false true true prog
   end.
+
+(* what the code computes for the *err modes (cumulative totals) *)
+Definition spec_cum_of (m : runmode) (prog : program) : obs :=
+  match sched_of m with
+  | STryErr => spec_ref true true false prog
+  | STryPipeErr => spec_ref true true true prog
+  | _ => spec_of m prog
+  end.
+
+Definition no_stderr (prog : program) : bool :=
+  forallb (fun c => match c_err c with [] => true | _ => false end) (cmds_of prog).
 
 (* ------------------------------------------------------------------ *)
 (* comparisons *)
@@ -392,8 +523,3 @@ Definition flag_eqb (a b : bool * bool * bool) : bool :=
   let '(a1, a2, a3) := a in let '(b1, b2, b3) := b in
   Bool.eqb a1 b1 && Bool.eqb a2 b2 && Bool.eqb a3 b3.
 
-Definition cmds_of (prog : program) : list cmd :=
-  flat_map (fun jp => fst (snd jp) :: snd (snd jp)) prog.
-
-Definition exits_nonneg (prog : program) : bool :=
-  forallb (fun c => Z.leb 0 (c_exit c)) (cmds_of prog).
